@@ -1107,6 +1107,13 @@ class OMPSerialDirective(OMPRegionDirective, metaclass=abc.ABCMeta):
                 f"{self._text_name} must not be inside another OpenMP "
                 f"serial region")
 
+        # OpenMP nesting rules: single and master regions may not be closely
+        # nested inside a worksharing-loop or taskloop region.
+        if self.ancestor((OMPDoDirective, OMPTaskloopDirective)):
+            raise GenerationError(
+                f"{self._text_name} must not be inside an OpenMP "
+                f"worksharing-loop (do) or taskloop region")
+
         super().validate_global_constraints()
 
 
@@ -1812,6 +1819,14 @@ class OMPTaskloopDirective(OMPRegionDirective):
                 "OMPTaskloopDirective must be inside an OMP Serial region "
                 "but could not find an ancestor node")
 
+        # A taskloop directive must be immediately followed by a loop.
+        if (len(self.dir_body.children) != 1 or
+                not isinstance(self.dir_body[0], Loop)):
+            raise GenerationError(
+                f"OMPTaskloopDirective must have exactly one Loop as child "
+                f"of its associated schedule but found "
+                f"{self.dir_body.children}.")
+
         # Check children are well formed.
         # _validate_child will ensure position 0 and 1 are valid.
         if len(self._children) == 3 and isinstance(self._children[1],
@@ -2061,6 +2076,14 @@ class OMPDoDirective(OMPRegionDirective):
             raise GenerationError(
                 "OMPDoDirective must be inside an OMP parallel region but "
                 "could not find an ancestor OMPParallelDirective node")
+
+        # OpenMP nesting rules: a worksharing region may not be closely nested
+        # inside a worksharing, master or taskloop region.
+        if self.ancestor((OMPDoDirective, OMPSerialDirective,
+                          OMPTaskloopDirective)):
+            raise GenerationError(
+                "OMPDoDirective must not be inside an OpenMP worksharing, "
+                "single, master or taskloop region")
 
         self._validate_single_loop()
         self._validate_collapse_value()
@@ -2523,12 +2546,24 @@ class OMPLoopDirective(OMPRegionDirective):
                 f"OMPLoopDirective must be inside a OMPTargetDirective or a "
                 f"OMPParallelDirective, but '{self}' is not.")
 
+        # Only parallel, loop and simd constructs may be nested inside a
+        # loop region.
+        for node in self.dir_body.walk(OMPDirective,
+                                       stop_type=OMPParallelDirective):
+            if not isinstance(node, (OMPParallelDirective, OMPLoopDirective,
+                                     OMPSimdDirective)):
+                raise GenerationError(
+                    f"OpenMP constructs other than parallel, loop or simd "
+                    f"may not be nested inside an OMPLoopDirective region "
+                    f"but found a {type(node).__name__}.")
+
         # If there is a collapse clause, there must be as many immediately
         # nested loops as the collapse value
         if self._collapse:
             cursor = self.dir_body.children[0]
             for depth in range(self._collapse):
-                if not isinstance(cursor, Loop):
+                if (len(cursor.parent.children) != 1 or
+                        not isinstance(cursor, Loop)):
                     raise GenerationError(
                         f"OMPLoopDirective must have as many immediately "
                         f"nested loops as the collapse clause specifies but "
